@@ -76,6 +76,7 @@ func (C13) Generate(r *core.RNG, tier string, idx uint64) interface{} {
 	if small {
 		p.Sweep = true
 		p.File.Recips = lib.GenRecips(r, 2, false, true)
+		lib.ClampGrease(p.File.Recips, 96)
 		max := 200
 		if tier == "thorough" {
 			max = 1024
